@@ -694,3 +694,361 @@ Proof.
   intros Hp He Hc Hwf Hk Hw. destruct (typed_roundtrip k t v x b He Hc Hwf Hk Hw) as (body & -> & Hr).
   exists body. split; [reflexivity|]. rewrite Hr. apply unembed_pad_embed; assumption.
 Qed.
+
+(* ---------- the typed round trip with nulls anywhere (no embedding of the whole value) ---------- *)
+
+(* a piece of bytes that one [bytes] read consumes exactly, after which [g] returns [v] *)
+Definition piece_ok (g : option bytes -> dres tval) (v : tval) (p : bytes) : Prop :=
+  forall r, exists ob, read_cql_bytes (p ++ r) = Some (ob, r) /\ g ob = Ok v.
+
+Lemma piece_len g v p : piece_ok g v p -> (4 <= List.length p)%nat.
+Proof.
+  intros H. destruct (H []) as (ob & Hr & _). rewrite app_nil_r in Hr.
+  apply read_cql_bytes_len in Hr. cbn in Hr. lia.
+Qed.
+
+Lemma typed_items_pieces g vs ps :
+  Forall2 (piece_ok g) vs ps ->
+  forall rest fuel, (List.length (concat ps ++ rest) < fuel)%nat ->
+  typed_items g fuel (N.of_nat (List.length vs)) (concat ps ++ rest) = Ok vs.
+Proof.
+  induction 1 as [|v p vs ps Hp HF IH]; intros rest fuel Hfuel.
+  - destruct fuel; reflexivity.
+  - destruct fuel as [|fuel]; [lia|]. cbn [List.length typed_items]. rewrite of_nat_S_nz.
+    rewrite concat_cons_app. destruct (Hp (concat ps ++ rest)) as (ob & Hr & Hg). rewrite Hr, Hg. cbn [rbind].
+    rewrite of_nat_S_pred, IH; [reflexivity|].
+    pose proof (piece_len _ _ _ Hp). rewrite concat_cons_app, app_length in Hfuel. lia.
+Qed.
+
+Lemma typed_pairs_pieces gk gv (l : list (tval * tval)) ps :
+  Forall2 (fun kv p => exists pk pv, p = pk ++ pv /\ piece_ok gk (fst kv) pk /\ piece_ok gv (snd kv) pv) l ps ->
+  forall rest fuel, (List.length (concat ps ++ rest) < fuel)%nat ->
+  typed_pairs gk gv fuel (N.of_nat (List.length l)) (concat ps ++ rest) = Ok l.
+Proof.
+  induction 1 as [|[k v] p l ps (pk & pv & -> & Hk & Hv) HF IH]; intros rest fuel Hfuel.
+  - destruct fuel; reflexivity.
+  - destruct fuel as [|fuel]; [lia|]. cbn [List.length typed_pairs fst snd] in *. rewrite of_nat_S_nz.
+    rewrite concat_cons_app, <- app_assoc.
+    destruct (Hk (pv ++ concat ps ++ rest)) as (ok & Hrk & Hgk). rewrite Hrk.
+    destruct (Hv (concat ps ++ rest)) as (ov & Hrv & Hgv). rewrite Hrv, Hgk, Hgv. cbn [rbind].
+    rewrite of_nat_S_pred, IH; [reflexivity|].
+    pose proof (piece_len _ _ _ Hk). rewrite concat_cons_app, !app_length in Hfuel. rewrite app_length. lia.
+Qed.
+
+(* ... and, when the carrier cannot itself be null, the item read is not null *)
+Definition piece_ok2 (k : carrier) (t : ctype) (v : tval) (p : bytes) : Prop :=
+  forall r, exists ob, read_cql_bytes (p ++ r) = Some (ob, r) /\ typed_read k t ob = Ok v /\
+                       (nullable k = false -> ob <> None).
+
+Lemma piece_ok2_1 k t v p : piece_ok2 k t v p -> piece_ok (typed_read k t) v p.
+Proof. intros H r. destruct (H r) as (ob & H1 & H2 & _). eauto. Qed.
+
+Definition TRC (k : carrier) : Prop := forall t v b,
+  plain k = true -> typed_check k t = true -> tgood k t v = true ->
+  typed_write k true t v = Ok b -> piece_ok2 k t v b.
+
+Lemma known_class_native n x : known_class (TNative n) x = false.
+Proof. unfold known_class. cbn [exists_sub]. rewrite orb_false_r. unfold kc_any, kc_vector_hole, kc_empty_tuple. reflexivity. Qed.
+
+(* a value that embeds as a whole: the existing exact theorem, in piece form *)
+Lemma piece_of_embed k t v x b :
+  plain k = true -> typed_check k t = true -> embed k t v = Some (CVal x) ->
+  wf t x = true -> known_class t x = false -> typed_write k true t v = Ok b ->
+  piece_ok2 k t v b.
+Proof.
+  intros Hp Hc He Hwf Hk Hw r.
+  rewrite (typed_write_embed k true t v _ He) in Hw. cbn [ser_cell_ws] in Hw.
+  apply rbind_ok in Hw as (body & Hb & Hw). inv Hw.
+  unfold wf in Hwf. apply andb_true_iff in Hwf as [Hwt Hwv].
+  exists (Some body). split; [apply read_cql_framed; eapply ser_sized_bound; eassumption|].
+  split; [|intros _; discriminate].
+  rewrite (typed_read_unembed k t body (pad t x) Hc (roundtrip_value_sized t x body Hwt Hwv Hk Hb)).
+  apply unembed_pad_embed; assumption.
+Qed.
+
+Lemma seq_write_inv (f : tval -> sres) l b :
+  (if i32_max <? N.of_nat (List.length l) then Err SE_TooManyElements else
+   rbind (ser_concat f l) (fun bs => rbind (finish true (be32 (N.of_nat (List.length l)) ++ bs)) (fun c => Ok (wrap true c)))) = Ok b ->
+  exists ps, Forall2 (fun x p => f x = Ok p) l ps /\ N.of_nat (List.length l) <= i32_max /\
+             b = framed (be32 (N.of_nat (List.length l)) ++ concat ps) /\
+             blen (be32 (N.of_nat (List.length l)) ++ concat ps) <= i32_max.
+Proof.
+  destruct (i32_max <? _) eqn:E; [discriminate|]. apply N.ltb_ge in E. intros H.
+  apply rbind_ok in H as (bs & Hbs & H). apply rbind_ok in H as (c & Hf & H). inv H.
+  apply finish_ok in Hf as [-> Hb]. apply ser_concat_ok in Hbs as (ps & HF & ->).
+  exists ps. repeat split; auto.
+Qed.
+
+Lemma trc_seq k e l b (g := typed_read k e) :
+  (forall v p, In v l -> typed_write k true e v = Ok p -> piece_ok g v p) ->
+  (if i32_max <? N.of_nat (List.length l) then Err SE_TooManyElements else
+   rbind (ser_concat (typed_write k true e) l) (fun bs => rbind (finish true (be32 (N.of_nat (List.length l)) ++ bs)) (fun c => Ok (wrap true c)))) = Ok b ->
+  forall r, exists body, read_cql_bytes (b ++ r) = Some (Some body, r) /\
+    rbind (read_count body) (fun nr => rbind (typed_items g (S (List.length body)) (fst nr) (snd nr)) (fun l => Ok (TSeq l))) = Ok (TSeq l).
+Proof.
+  intros Hel H r. apply seq_write_inv in H as (ps & HF & Hn & -> & Hb).
+  eexists. split; [apply read_cql_framed; exact Hb|].
+  unfold read_count. rewrite read_int_be32 by exact Hn.
+  destruct (Z.of_N _ <? 0)%Z eqn:E; [lia|]. cbn [rbind fst snd]. rewrite N2Z.id.
+  assert (HF' : Forall2 (piece_ok g) l ps).
+  { eapply Forall2_impl_In; [exact HF|]. intros v p Hv _ Hp. exact (Hel v p Hv Hp). }
+  pose proof (typed_items_pieces g l ps HF' [] (S (List.length (be32 (N.of_nat (List.length l)) ++ concat ps)))) as HI.
+  rewrite !(app_nil_r (concat ps)) in HI. rewrite HI by (rewrite app_length; lia). reflexivity.
+Qed.
+
+Fixpoint tg_tuple_go (ks : list carrier) (ts : list ctype) (vs : list tval) : bool :=
+  match ks, ts, vs with
+  | [], [], [] => true
+  | k1 :: ks', t1 :: ts', v1 :: vs' => tgood k1 t1 v1 && tg_tuple_go ks' ts' vs'
+  | _, _, _ => false
+  end.
+
+Lemma tgood_tuple ks ts vs : tgood (KTuple ks) (TTuple ts) (TTup vs) = tg_tuple_go ks ts vs.
+Proof.
+  cbn [tgood]. revert ts vs. induction ks as [|k1 ks IH]; intros ts vs; [destruct ts, vs; reflexivity|].
+  destruct ts as [|t1 ts]; [reflexivity|]. destruct vs as [|v1 vs]; [reflexivity|].
+  cbn [tg_tuple_go]. f_equal; try apply IH.
+Qed.
+
+Lemma trc_tuple_go ks : Forall TRC ks -> forall ts vs bs,
+  forallb plain ks = true -> tc_tuple_go ks ts = true -> tg_tuple_go ks ts vs = true ->
+  tw_tuple_go (fun k => typed_write k true) ks ts vs = Ok bs ->
+  tr_tuple_go typed_read ks ts bs = Ok vs.
+Proof.
+  induction 1 as [|k1 ks H1 HF IH]; intros ts vs bs Hp Hc Hg Hw.
+  - destruct ts; [|discriminate]. destruct vs; [|discriminate]. reflexivity.
+  - destruct ts as [|t1 ts]; [discriminate|]. destruct vs as [|v1 vs]; [discriminate|].
+    cbn [forallb tc_tuple_go tg_tuple_go tw_tuple_go] in *.
+    apply andb_true_iff in Hp as [Hp1 Hps]. apply andb_true_iff in Hc as [Hc1 Hcs]. apply andb_true_iff in Hg as [Hg1 Hgs].
+    apply rbind_ok in Hw as (p & Hp' & Hw). apply rbind_ok in Hw as (bs' & Hbs' & Hw). inv Hw.
+    pose proof (piece_ok2_1 _ _ _ _ (H1 t1 v1 p Hp1 Hc1 Hg1 Hp')) as Hpiece. pose proof (piece_len _ _ _ Hpiece) as Hl.
+    cbn [tr_tuple_go]. rewrite is_nil_app_false by (intros ->; cbn in Hl; lia).
+    destruct (Hpiece bs') as (ob & Hr & Hgv). rewrite Hr, Hgv. cbn [rbind].
+    rewrite (IH ts vs bs' Hps Hcs Hgs Hbs'). reflexivity.
+Qed.
+
+Lemma is_nil_false {A} (l : list A) : l <> [] -> is_nil l = false.
+Proof. destruct l; [congruence|reflexivity]. Qed.
+
+Lemma leaf_embed_not_empty l t v x : leaf_embed l t v = Some x -> x <> CEmpty.
+Proof. destruct l; destruct v; cbn; intros H; try discriminate H; apply some_inj in H; subst; try discriminate; destruct t as [[]| | | | | |]; discriminate. Qed.
+
+(* an emptiable leaf value of the type is never written as zero bytes *)
+Lemma leaf_nonempty l t v b :
+  emptiable (KLeaf l) = true -> typed_check (KLeaf l) t = true -> tgood (KLeaf l) t v = true ->
+  typed_write (KLeaf l) true t v = Ok b -> exists c, b = framed c /\ c <> [] /\ blen c <= i32_max.
+Proof.
+  intros Hem Hc Hg Hw. cbn [tgood] in Hg. destruct (leaf_embed l t v) as [x|] eqn:E; [|discriminate].
+  assert (He : embed (KLeaf l) t v = Some (CVal x)) by (cbn [embed]; rewrite E; reflexivity).
+  rewrite (typed_write_embed (KLeaf l) true t v _ He) in Hw. cbn [ser_cell_ws] in Hw.
+  apply rbind_ok in Hw as (c & Hcx & Hw). inv Hw.
+  unfold wf in Hg. apply andb_true_iff in Hg as [Hwt Hwv].
+  cbn [typed_check] in Hc. destruct (native_in_inv _ _ Hc) as (n & ->).
+  exists c. split; [reflexivity|]. split; [|eapply ser_sized_bound; eassumption].
+  apply (ser_nonempty (TNative n) true x c Hwt Hwv (known_class_native n x) (leaf_embed_not_empty _ _ _ _ E)); [|exact Hcx].
+  destruct l; try discriminate Hem; destruct n; try discriminate Hc; reflexivity.
+Qed.
+
+Theorem typed_roundtrip_cells k : TRC k.
+Proof.
+  induction k as [l| |k IH|k IH|k IH|k IH|k IH|k IH|ka kb IHa IHb|ks IH] using carrier_ind'; intros t v b Hp Hc Hg Hw;
+    cbn [plain] in Hp; try discriminate Hp.
+  - (* leaf: embeds as a whole *)
+    cbn [tgood] in Hg. destruct (leaf_embed l t v) as [x|] eqn:E; [|discriminate].
+    cbn [typed_check] in Hc. destruct (native_in_inv _ _ Hc) as (n & ->).
+    apply (piece_of_embed (KLeaf l) (TNative n) v x b eq_refl Hc); try assumption.
+    + cbn [embed]. rewrite E. reflexivity.
+    + apply known_class_native.
+  - (* Option *)
+    apply andb_true_iff in Hp as [Hn Hp]. apply negb_true_iff in Hn.
+    cbn [typed_check tgood typed_write] in *. destruct v; try discriminate.
+    + inv Hw. intros r. exists None. split; [apply read_cql_null|]. split; [reflexivity|discriminate].
+    + intros r. destruct (IH t v b Hp Hc Hg Hw r) as (ob & Hr & Hgv & Hnn). exists ob. split; [exact Hr|].
+      split; [|discriminate]. cbn [typed_read]. destruct ob as [s|]; [rewrite Hgv; reflexivity|].
+      exfalso. apply (Hnn Hn). reflexivity.
+  - (* MaybeEmpty *)
+    apply andb_true_iff in Hp as [Hem Hp]. cbn [typed_check] in Hc. apply andb_true_iff in Hc as [_ Hc].
+    cbn [tgood typed_write] in *. destruct (negb (supports_empty t)); [discriminate|]. destruct v; try discriminate.
+    + inv Hw. intros r. exists (Some []). split; [apply (read_cql_framed []); cbn; unfold i32_max; lia|].
+      split; [reflexivity|discriminate].
+    + assert (Hn : nullable k = false) by (destruct k; try discriminate Hem; reflexivity).
+      intros r. destruct (IH t v b Hp Hc Hg Hw r) as (ob & Hr & Hgv & Hnn). exists ob. split; [exact Hr|].
+      split; [|intros _; apply Hnn; exact Hn]. cbn [typed_read].
+      destruct ob as [s|]; [|exfalso; apply (Hnn Hn); reflexivity].
+      destruct k as [l| | | | | | | | |]; try discriminate Hem.
+      destruct (leaf_nonempty l t v b Hem Hc Hg Hw) as (c & -> & Hcn & Hcb).
+      rewrite read_cql_framed in Hr by exact Hcb. apply some_inj in Hr. inversion Hr; subst s.
+      rewrite is_nil_false by exact Hcn. rewrite Hgv. reflexivity.
+  - (* pointers *)
+    cbn [typed_check tgood typed_write nullable] in *. destruct v; try discriminate.
+    intros r. destruct (IH t v b Hp Hc Hg Hw r) as (ob & Hr & Hgv & Hnn). exists ob. split; [exact Hr|].
+    split; [cbn [typed_read]; rewrite Hgv; reflexivity|exact Hnn].
+  - (* Vec *)
+    destruct v; try (cbn [tgood] in Hg; discriminate Hg).
+    destruct t as [|e|e| | | |e d]; try (cbn [typed_check] in Hc; discriminate Hc).
+    + cbn [typed_check tgood typed_write] in *. intros r.
+      destruct (trc_seq k e l b (fun v p Hv Hpv => piece_ok2_1 _ _ _ _ (IH e v p Hp Hc (forallb_In _ _ _ Hg Hv) Hpv)) Hw r) as (body & Hr & Hrd).
+      exists (Some body). split; [exact Hr|]. split; [|discriminate]. cbn [typed_read]. exact Hrd.
+    + cbn [typed_check tgood typed_write] in *. intros r.
+      destruct (trc_seq k e l b (fun v p Hv Hpv => piece_ok2_1 _ _ _ _ (IH e v p Hp Hc (forallb_In _ _ _ Hg Hv) Hpv)) Hw r) as (body & Hr & Hrd).
+      exists (Some body). split; [exact Hr|]. split; [|discriminate]. cbn [typed_read]. exact Hrd.
+    + (* bound to a vector: the value embeds as a whole *)
+      cbn [tgood] in Hg. destruct (embed (KVec k) (TVector e d) (TSeq l)) as [[| |x]|] eqn:E; try discriminate Hg.
+      apply andb_true_iff in Hg as [Hwf Hk]. apply negb_true_iff in Hk.
+      apply (piece_of_embed (KVec k) (TVector e d) (TSeq l) x b Hp Hc E Hwf Hk Hw).
+  - (* sets *)
+    destruct v; try (cbn [tgood] in Hg; discriminate Hg).
+    destruct t as [| |e| | | |]; try (cbn [typed_check] in Hc; discriminate Hc).
+    cbn [typed_check tgood typed_write] in *. intros r.
+    destruct (trc_seq k e l b (fun v p Hv Hpv => piece_ok2_1 _ _ _ _ (IH e v p Hp Hc (forallb_In _ _ _ Hg Hv) Hpv)) Hw r) as (body & Hr & Hrd).
+    exists (Some body). split; [exact Hr|]. split; [|discriminate]. cbn [typed_read]. exact Hrd.
+  - (* maps *)
+    apply andb_true_iff in Hp as [Hpa Hpb].
+    destruct v; try (cbn [tgood] in Hg; discriminate Hg).
+    destruct t as [| | |tk tv| | |]; try (cbn [typed_check] in Hc; discriminate Hc).
+    cbn [typed_check tgood typed_write] in *. apply andb_true_iff in Hc as [Hca Hcb]. intros r.
+    destruct (i32_max <? _) eqn:En; [discriminate|]. apply N.ltb_ge in En.
+    apply rbind_ok in Hw as (bs & Hbs & Hw). apply rbind_ok in Hw as (c & Hf & Hw). inv Hw.
+    apply finish_ok in Hf as [-> Hb]. specialize (Hb eq_refl). apply ser_concat_ok in Hbs as (ps & HF & ->).
+    eexists. split; [apply read_cql_framed; exact Hb|]. split; [|discriminate].
+    cbn [typed_read]. unfold read_count. rewrite read_int_be32 by exact En.
+    destruct (Z.of_N _ <? 0)%Z eqn:E; [lia|]. cbn [rbind fst snd]. rewrite N2Z.id.
+    pose proof (typed_pairs_pieces (typed_read ka tk) (typed_read kb tv) l ps) as HI.
+    rewrite <- (app_nil_r (concat ps)) at 2.
+    rewrite HI; [reflexivity| |rewrite app_nil_r, !app_length; lia].
+    eapply Forall2_impl_In; [exact HF|]. intros kv p Hx _ Hpp. cbn beta in Hpp.
+    apply rbind_ok in Hpp as (pk & Hpk & Hpp). apply rbind_ok in Hpp as (pv & Hpv & Hpp). inv Hpp.
+    pose proof (forallb_In _ _ _ Hg Hx) as Hgx. cbn beta in Hgx. apply andb_true_iff in Hgx as [Hg1 Hg2].
+    exists pk, pv. split; [reflexivity|].
+    split; [apply piece_ok2_1, (IHa tk _ pk Hpa Hca Hg1 Hpk)|apply piece_ok2_1, (IHb tv _ pv Hpb Hcb Hg2 Hpv)].
+  - (* tuples *)
+    destruct v; try (cbn [tgood] in Hg; discriminate Hg).
+    destruct t as [| | | |ts| |]; try (cbn [typed_check] in Hc; discriminate Hc).
+    rewrite typed_check_tuple in Hc. apply andb_true_iff in Hc as [Hlen Hc]. apply Nat.eqb_eq in Hlen.
+    rewrite tgood_tuple in Hg. rewrite typed_write_tuple in Hw.
+    destruct (_ <? _)%nat; [discriminate|].
+    apply rbind_ok in Hw as (bs & Hbs & Hw). apply rbind_ok in Hw as (c & Hf & Hw). inv Hw.
+    apply finish_ok in Hf as [-> Hb]. specialize (Hb eq_refl). intros r.
+    exists (Some bs). split; [apply read_cql_framed; exact Hb|]. split; [|discriminate].
+    rewrite typed_read_tuple, (trc_tuple_go ks IH ts l bs Hp Hc Hg Hbs). reflexivity.
+Qed.
+
+(* ---------- [tgood] covers every value the whole-value embedding covers ---------- *)
+
+Definition cell_good (t : ctype) (c : cell) : Prop :=
+  match c with CVal x => wf t x = true /\ known_class t x = false | _ => True end.
+
+Lemma all_some_forallb {A B} (g : A -> option B) (P : A -> bool) (Q : B -> Prop) l xs :
+  all_some (map g l) = Some xs -> Forall Q xs ->
+  (forall x y, In x l -> g x = Some y -> Q y -> P x = true) -> forallb P l = true.
+Proof.
+  revert xs. induction l as [|x l IH]; intros xs H HQ HP; [reflexivity|].
+  cbn [map] in H. apply all_some_cons in H as (y & r & Hy & Hr & ->). inversion HQ; subst.
+  cbn [forallb]. rewrite (HP x y (or_introl eq_refl) Hy) by assumption.
+  apply (IH r Hr); [assumption|]. intros x' y' Hx. apply HP. right. exact Hx.
+Qed.
+
+Lemma seq_good t e xs (v : cval) : (t = TList e \/ t = TSet e) -> vec_elems v = Some xs -> v <> CEmpty ->
+  wf t v = true -> known_class t v = false ->
+  Forall (fun x => wf e x = true /\ known_class e x = false) xs.
+Proof.
+  intros Ht Hv Hne Hwf Hk. unfold wf in *. apply andb_true_iff in Hwf as [Hty Hwv].
+  unfold known_class in *.
+  assert (wf_type e = true /\ forallb (wf_val e) xs = true /\ existsb (exists_sub kc_any e) xs = false) as (H1 & H2 & H3).
+  { destruct Ht as [-> | ->]; cbn [wf_type exists_sub] in *; rewrite Hv in Hk; apply orb_false_iff in Hk as [_ Hk];
+      (split; [exact Hty|split; [|exact Hk]]); destruct v; try discriminate Hv; try congruence; cbn in Hv; inversion Hv; subst; exact Hwv. }
+  clear - H1 H2 H3. induction xs as [|x xs IH]; [constructor|].
+  cbn [forallb existsb] in *. apply andb_true_iff in H2 as [? ?]. apply orb_false_iff in H3 as [? ?].
+  constructor; [split; [apply andb_true_iff; split; assumption|assumption]|apply IH; assumption].
+Qed.
+
+Definition ETG k := forall t v c, plain k = true -> typed_check k t = true -> embed k t v = Some c -> cell_good t c -> tgood k t v = true.
+
+Lemma cell_val_some c x : cell_val c = Some x -> c = CVal x.
+Proof. destruct c; cbn; intros H; inversion H; reflexivity. Qed.
+
+Lemma etg_seq k e l xs : ETG k -> plain k = true -> typed_check k e = true ->
+  all_some (map (fun x => match embed k e x with Some c => cell_val c | None => None end) l) = Some xs ->
+  Forall (fun x => wf e x = true /\ known_class e x = false) xs ->
+  forallb (tgood k e) l = true.
+Proof.
+  intros IH Hp Hc Ha HF. apply (all_some_forallb _ _ _ l xs Ha HF).
+  intros x y _ Hy HQ. destruct (embed k e x) as [c|] eqn:E; [|discriminate]. apply cell_val_some in Hy. subst c.
+  apply (IH e x (CVal y) Hp Hc E). exact HQ.
+Qed.
+
+Lemma etg_tuple_go ks : Forall ETG ks -> forall ts vs xs,
+  forallb plain ks = true -> List.length ks = List.length ts -> tc_tuple_go ks ts = true ->
+  emb_tuple_go embed ks ts vs = Some xs ->
+  forallb wf_type ts = true -> wf_tuple_go wf_val ts xs = true -> ex_tuple_go (exists_sub kc_any) ts xs = false ->
+  tg_tuple_go ks ts vs = true.
+Proof.
+  induction 1 as [|k ks Hk _ IH]; intros ts vs xs Hp Hl Hc He Hty Hwf Hkc.
+  - destruct ts; [|discriminate]. destruct vs; [reflexivity|discriminate].
+  - destruct ts as [|t ts]; [discriminate|]. destruct vs as [|v vs]; [discriminate|].
+    cbn [forallb tc_tuple_go emb_tuple_go tg_tuple_go List.length] in *.
+    apply andb_true_iff in Hp as [Hp1 Hp]. apply andb_true_iff in Hc as [Hc1 Hc]. apply andb_true_iff in Hty as [Hty1 Hty].
+    destruct (embed k t v) as [c|] eqn:E; [|discriminate].
+    destruct (emb_tuple_go embed ks ts vs) as [r|] eqn:Er; [|destruct c; discriminate].
+    assert (exists ox, xs = ox :: r /\ match ox with Some x => c = CVal x | None => c = CNull end) as (ox & -> & Hox).
+    { destruct c; try discriminate; inversion He; eexists; split; reflexivity. }
+    cbn [wf_tuple_go ex_tuple_go] in *. apply andb_true_iff in Hwf as [Hw1 Hwf]. apply orb_false_iff in Hkc as [Hk1 Hkc].
+    rewrite (IH ts vs r Hp (eq_add_S _ _ Hl) Hc Er Hty Hwf Hkc), andb_true_r.
+    apply (Hk t v c Hp1 Hc1 E). destruct ox as [x|]; subst c; cbn [cell_good]; [|exact I].
+    split; [unfold wf; rewrite Hty1, Hw1; reflexivity|exact Hk1].
+Qed.
+
+Theorem embed_tgood k : ETG k.
+Proof.
+  induction k as [l| |k IH|k IH|k IH|k IH|k IH|k IH|ka kb IHa IHb|ks IH] using carrier_ind'; intros t v c Hp Hc He Hg;
+    cbn [plain] in Hp; try discriminate Hp.
+  - cbn [embed] in He. cbn [tgood]. destruct (leaf_embed l t v) as [x|]; [|discriminate]. inversion He; subst c. apply Hg.
+  - apply andb_true_iff in Hp as [_ Hp]. cbn [typed_check embed tgood] in *. destruct v; try discriminate; try reflexivity.
+    apply (IH t v c Hp Hc He Hg).
+  - apply andb_true_iff in Hp as [_ Hp]. cbn [typed_check embed tgood] in *. apply andb_true_iff in Hc as [_ Hc].
+    destruct (negb (supports_empty t)); [discriminate|]. destruct v; try discriminate; try reflexivity.
+    apply (IH t v c Hp Hc He Hg).
+  - cbn [typed_check embed tgood] in *. destruct v; try discriminate. apply (IH t v c Hp Hc He Hg).
+  - destruct v; try (cbn [embed] in He; discriminate He).
+    destruct t as [|e|e| | | |e d]; try (cbn [typed_check] in Hc; discriminate Hc).
+    + cbn [typed_check embed tgood] in *. destruct (all_some _) as [xs|] eqn:Ea; [|discriminate]. inversion He; subst c.
+      destruct Hg as [Hwf Hk]. apply (etg_seq k e l xs IH Hp Hc Ea).
+      apply (seq_good (TList e) e xs (CList xs)); auto; discriminate.
+    + cbn [typed_check embed tgood] in *. destruct (all_some _) as [xs|] eqn:Ea; [|discriminate]. inversion He; subst c.
+      destruct Hg as [Hwf Hk]. apply (etg_seq k e l xs IH Hp Hc Ea).
+      apply (seq_good (TSet e) e xs (CSet xs)); auto; discriminate.
+    + cbn [tgood]. rewrite He. destruct c as [| |x]; try (cbn [embed] in He; destruct (all_some _); discriminate He).
+      destruct Hg as [Hwf Hk]. rewrite Hwf, Hk. reflexivity.
+  - destruct v; try (cbn [embed] in He; discriminate He).
+    destruct t as [| |e| | | |]; try (cbn [typed_check] in Hc; discriminate Hc).
+    cbn [typed_check embed tgood] in *. destruct (all_some _) as [xs|] eqn:Ea; [|discriminate]. inversion He; subst c.
+    destruct Hg as [Hwf Hk]. apply (etg_seq k e l xs IH Hp Hc Ea).
+    apply (seq_good (TSet e) e xs (CSet xs)); auto; discriminate.
+  - apply andb_true_iff in Hp as [Hpa Hpb].
+    destruct v; try (cbn [embed] in He; discriminate He).
+    destruct t as [| | |tk tv| | |]; try (cbn [typed_check] in Hc; discriminate Hc).
+    cbn [typed_check embed tgood] in *. apply andb_true_iff in Hc as [Hca Hcb].
+    destruct (all_some _) as [xs|] eqn:Ea; [|discriminate]. inversion He; subst c. destruct Hg as [Hwf Hk].
+    unfold wf, known_class in *. cbn [wf_type wf_val exists_sub] in *.
+    apply andb_true_iff in Hwf as [Hty Hwv]. apply andb_true_iff in Hty as [Hty1 Hty2].
+    apply orb_false_iff in Hk as [_ Hk].
+    apply (all_some_forallb _ _ (fun ab => (wf tk (fst ab) = true /\ known_class tk (fst ab) = false) /\ (wf tv (snd ab) = true /\ known_class tv (snd ab) = false)) l xs Ea).
+    + clear - Hty1 Hty2 Hwv Hk. induction xs as [|[a b] xs IHx]; [constructor|].
+      cbn [forallb existsb fst snd] in *. apply andb_true_iff in Hwv as [Hw Hwv]. apply andb_true_iff in Hw as [? ?].
+      apply orb_false_iff in Hk as [Hk1 Hk]. apply orb_false_iff in Hk1 as [? ?].
+      constructor; [|apply IHx; assumption]. unfold wf, known_class. cbn [fst snd].
+      repeat split; try assumption; apply andb_true_iff; split; assumption.
+    + intros kv [a b] _ Hy HQ. cbn [fst snd] in HQ. destruct HQ as [Qa Qb].
+      destruct (embed ka tk (fst kv)) as [[| |a']|] eqn:E1; try discriminate.
+      destruct (embed kb tv (snd kv)) as [[| |b']|] eqn:E2; try discriminate. inversion Hy; subst a' b'.
+      rewrite (IHa tk _ _ Hpa Hca E1 Qa), (IHb tv _ _ Hpb Hcb E2 Qb). reflexivity.
+  - destruct v; try (cbn [embed] in He; discriminate He).
+    destruct t as [| | | |ts| |]; try (cbn [typed_check] in Hc; discriminate Hc).
+    rewrite typed_check_tuple in Hc. apply andb_true_iff in Hc as [Hlen Hc]. apply Nat.eqb_eq in Hlen.
+    rewrite tgood_tuple. rewrite embed_tuple in He.
+    destruct (emb_tuple_go embed ks ts l) as [xs|] eqn:Ee; [|discriminate]. inversion He; subst c. destruct Hg as [Hwf Hk].
+    unfold wf, known_class in *. rewrite wf_val_tuple in Hwf. rewrite exists_sub_tuple in Hk. cbn [wf_type] in Hwf.
+    apply andb_true_iff in Hwf as [Hty Hwv]. apply andb_true_iff in Hty as [_ Hty]. apply andb_true_iff in Hwv as [_ Hwv].
+    apply orb_false_iff in Hk as [_ Hk].
+    apply (etg_tuple_go ks IH ts l xs Hp Hlen Hc Ee Hty Hwv Hk).
+Qed.
